@@ -159,9 +159,19 @@ impl Inst {
     pub fn feed(&mut self, s: u8, d1: u8, d2: u8, imp: &str) -> CallResult {
         match imp {
             "str" => {
-                let m = StructuredShortMessage::from_bytes((s, U7::new(d1), U7::new(d2)))
-                    .expect("script feeds a valid status byte");
-                self.feed_generic(&m)
+                // building the structured form runs code under test: a panic there is data
+                let (m, allocs) = guarded(|| {
+                    StructuredShortMessage::from_bytes((s, U7::new(d1), U7::new(d2)))
+                        .expect("script feeds a valid status byte")
+                });
+                match m {
+                    Some(m) => {
+                        let mut r = self.feed_generic(&m);
+                        r.allocs += allocs;
+                        r
+                    }
+                    None => CallResult { out: vec![], gap: false, allocs, panicked: true },
+                }
             }
             "for" => self.feed_generic(&Foreign(s, d1, d2)),
             _ => {
